@@ -25,8 +25,24 @@ def main(argv=None):
     except MachineryError as ex:
         print(f"MACHINERY-ERROR {args.pid}: {ex}", file=sys.stderr)
         return 2
-    except Exception:
+    except Exception as ex:
         traceback.print_exc()
+        # An exception raised INSIDE the library under test (innermost library frame below the last harness frame) at a place where the
+        # harness does not expect one is a failure of the operation, not of the machinery: report it as a violation with the traceback
+        # as the replay.  (On the unchanged tree every check runs to completion, so this only speaks about changed code.)
+        repo_pkg = os.environ.get("VERIF_REPO", "/repo") + "/spatialpandas/"
+        frames = traceback.extract_tb(ex.__traceback__)
+        last_harness = max((i for i, f in enumerate(frames) if "/harness/" in f.filename), default=-1)
+        inside = [f for f in frames[last_harness + 1:] if f.filename.startswith(repo_pkg)]
+        if inside and args.pid.upper() != "SELFTEST":
+            from . import core
+            os.makedirs(core.REPLAYS, exist_ok=True)
+            path = os.path.join(core.REPLAYS, f"{args.pid.upper()}_raises_{abs(hash(inside[-1].filename + str(inside[-1].lineno))) % 10 ** 8:08d}.txt")
+            with open(path, "w") as f:
+                f.write(f"{args.pid}: the library raised {type(ex).__name__}: {ex}\nwhere the check expects a result\n\n" + traceback.format_exc())
+            print(f"VIOLATION property={args.pid.upper()} replay={path}")
+            print(f"  the library raised {type(ex).__name__}: {ex} (in {inside[-1].filename}:{inside[-1].lineno} {inside[-1].name}) where the check expects a result")
+            return 1
         print(f"MACHINERY-ERROR {args.pid}: unexpected exception in the harness", file=sys.stderr)
         return 2
 
